@@ -16,7 +16,7 @@ HEADLINE = ['second_assemblies', 'sequences', 'assemblies', 'assembled_ok', 'rej
 
 def floors(tier):
     return {'assemblies': 1500, 'assembled_ok': 500, 'rejected_dangling_motor': 50, 'rejected_duplicate_names': 50, 'duplicates_outside_chain_accepted': 30, 'reroutes': 1000,
-            'self_locking_true': 40, 'self_locking_false': 300, 'immutability_checks': 1000, 'post_assembly_declarations': 500, 'chains_with_two_worms': 10, 'second_assemblies': 300,
+            'self_locking_true': 40, 'self_locking_false': 300, 'immutability_checks': 1000, 'post_assembly_declarations': 500, 'chains_with_two_worms': 10, 'second_assemblies': 300, 'use_phase_runs': 60,
             'set:nontrivial': 60, 'set:chain_lengths': 8}
 
 
@@ -145,6 +145,28 @@ def sequence(ctx, i):
             return
     flag0 = pt.self_locking
     ids0 = [id(e) for e in pt.elements]
+    if rng.random() < 0.5:
+        # the powertrain is USED (a short simulation, then reset): element tuple and flag are fixed at construction and stay.
+        # Whether the run itself succeeds is not this property's business (efficiency 0, missing data...): only counted.
+        un = G.un
+        try:
+            tgt = [e for e in pt.elements if hasattr(e, 'external_torque')][-1]
+            tgt.external_torque = lambda time, angular_position, angular_speed: un.Torque(1, 'mNm')
+            pt.elements[-1].angular_position = un.AngularPosition(0, 'rad')
+            pt.elements[-1].angular_speed = un.AngularSpeed(0, 'rad/s')
+            G.Solver(powertrain=pt).run(time_discretization=un.TimeInterval(1, 'ms'), simulation_time=un.TimeInterval(4, 'ms'))
+            ctx.count('use_phase_runs')
+        except Exception as ex:
+            ctx.count('use_phase_runs_failed')
+            ctx.seen('use_phase_run_failures', type(ex).__name__ + ': ' + str(ex)[:60])
+        try:
+            pt.reset()
+            ctx.count('use_phase_resets')
+        except Exception:
+            ctx.count('use_phase_resets_failed')
+        if [id(e) for e in pt.elements] != ids0 or pt.self_locking is not flag0:
+            ctx.violation('C20:powertrain-changed-by-use', dict(wit, elements_after=[(type(e).__name__, e.name) for e in pt.elements], flag_before=flag0, flag_after=pt.self_locking), case)
+            return
     for _ in range(rng.randint(1, 3)):
         c = DC.do_call(rng, pool)
         ctx.count('post_assembly_declarations')
